@@ -116,6 +116,9 @@ class Check:
             lines.append("  analysed %-38s %s" % (k, v))
         for nt in self.notes:
             lines.append("  note: " + nt)
+        renamed = list(getattr(self.prog, "info", {}).get("renamed") or [])
+        for rn in renamed:
+            lines.append("  note: identifiers are shown as in the reference tree - " + rn)
         byrule = {}
         for o in self.obls:
             byrule.setdefault(o.rule, []).append(o)
@@ -137,7 +140,7 @@ class Check:
             f.write("\n".join(lines) + "\n")
         if not self.quiet:
             try:
-                for ln in lines[:1 + len(self.analysed) + len(self.notes) + len(byrule)]:
+                for ln in lines[:1 + len(self.analysed) + len(self.notes) + len(renamed) + len(byrule)]:
                     print(ln)
             except BrokenPipeError:
                 pass
@@ -175,6 +178,7 @@ class Check:
                 "known_findings_reported": [v.key for v, _ in known_hits],
                 "tree_hash": getattr(self.prog, "info", {}).get("tree_hash"),
                 "functions_in_program": len(self.prog.fns),
+                "renamed_identifiers_normalised": renamed,
                 "exhaustive": True,
             },
             "assumptions": self.assumptions,
